@@ -560,6 +560,26 @@ let v_Y := 0 in
 Definition go_decode_isNaNOrInfinity (v_f : Z) :=
 ((Z.land v_f 2139095040) =? 2139095040).
 
+(* generate:  Scale *)
+Definition go_generate_Scale (v_v : (list Z)) :=
+if ((Z.of_nat (length v_v)) =? 0) then (
+[1065353216; 0; 0; 0; 1065353216; 0])
+else (if ((Z.of_nat (length v_v)) =? 1) then (
+[(nth 0%nat v_v 0); 0; 0; 0; (nth 0%nat v_v 0); 0])
+else ([(nth 0%nat v_v 0); 0; 0; 0; (nth 1%nat v_v 0); 0])).
+
+(* generate:  Concat *)
+Definition go_generate_Concat (v_affs : (list (list Z))) :=
+if ((Z.of_nat (length v_affs)) =? 0) then (
+[1065353216; 0; 0; 0; 1065353216; 0])
+else (if ((Z.of_nat (length v_affs)) =? 1) then (
+(nth 0%nat v_affs [0; 0; 0; 0; 0; 0]))
+else (let v_a := [1065353216; 0; 0; 0; 1065353216; 0] in
+let v_a := (fold_left (fun (v_a : (list Z)) (v_b : (list Z)) =>
+let v_a := [(fadd F32 (fmul F32 (nth 0%nat v_a 0) (nth 0%nat v_b 0)) (fmul F32 (nth 3%nat v_a 0) (nth 1%nat v_b 0))); (fadd F32 (fmul F32 (nth 1%nat v_a 0) (nth 0%nat v_b 0)) (fmul F32 (nth 4%nat v_a 0) (nth 1%nat v_b 0))); (fadd F32 (fadd F32 (fmul F32 (nth 2%nat v_a 0) (nth 0%nat v_b 0)) (fmul F32 (nth 5%nat v_a 0) (nth 1%nat v_b 0))) (nth 2%nat v_b 0)); (fadd F32 (fmul F32 (nth 0%nat v_a 0) (nth 3%nat v_b 0)) (fmul F32 (nth 3%nat v_a 0) (nth 4%nat v_b 0))); (fadd F32 (fmul F32 (nth 1%nat v_a 0) (nth 3%nat v_b 0)) (fmul F32 (nth 4%nat v_a 0) (nth 4%nat v_b 0))); (fadd F32 (fadd F32 (fmul F32 (nth 2%nat v_a 0) (nth 3%nat v_b 0)) (fmul F32 (nth 5%nat v_a 0) (nth 4%nat v_b 0))) (nth 5%nat v_b 0))] in
+v_a) v_affs v_a) in
+v_a)).
+
 (* render: Renderer CSel *)
 Definition go_render_Renderer_CSel (f_cSel : Z) :=
 f_cSel.
@@ -639,4 +659,4 @@ let v_x := (ffloor F64 (fadd F64 (fmul F64 (f32_to_f64 v_coord) 4634204016564240
 else (
 v_coord).
 
-(* translated: 68, untranslated: 0  *)
+(* translated: 70, untranslated: 0  *)
